@@ -143,6 +143,7 @@ type world struct {
 	resLog    []int // ids in the order they left Results()
 	resPtrDup int
 	nErrs     int
+	nOverflow int // ErrPendingLimitExceeded reports seen on Errors()
 	held      map[uint64]heldRec
 	hookOrder [2][]int
 	strays    []string
@@ -255,9 +256,12 @@ func (w *world) start() error {
 	}()
 	go func() {
 		defer close(w.errsDone)
-		for range errs {
+		for err := range errs {
 			w.mu.Lock()
 			w.nErrs++
+			if errors.Is(err, pipeline.ErrPendingLimitExceeded) {
+				w.nOverflow++
+			}
 			w.mu.Unlock()
 		}
 	}()
